@@ -2,7 +2,7 @@
 # usage: seed_run.sh <seed-id> <property> [tier]  - apply seeded/<id>/patch.diff to /repo, run the check, undo the patch
 ID=$1; P=$2; TIER=${3:-quick}; V=$(dirname $(dirname $(realpath $0)))
 git -C /repo diff --quiet || { echo "/repo not clean"; exit 2; }
-git -C /repo apply $V/seeded/$ID/patch.diff || { echo "patch does not apply"; exit 2; }
+git -C /repo apply $V/seeded/$ID/patch.diff 2>/dev/null || (cd /repo && patch -p1 -F3 -s --no-backup-if-mismatch < $V/seeded/$ID/patch.diff) || { echo "patch does not apply"; git -C /repo checkout -- .; exit 2; }
 cd $V; python3 tools/vcheck.py $P $TIER > /tmp/seedrun_$ID.log 2>&1; rc=$?
 git -C /repo checkout -- .
 n=$(grep -c '^VIOLATION property' /tmp/seedrun_$ID.log)
